@@ -133,6 +133,22 @@ def cases(rng, quick, gr):
         if "text" in c and not c.get("files") and len(texts) < 400:
             texts.append(c["text"])
         yield c
+    # a complex element in an int / float array whose other elements are unusual (an integer beyond 64 bits, a string variable,
+    # a bool): the array must be refused whatever its neighbours are (beyond-int64 neighbours are outside the model: judged here)
+    for ty in ["float", "int"]:
+        for cx in ["2*1j", "1j*1j*1j", "exp(1j)", "(1+2j)**2", "1j/2", "zc9", "2j"]:
+            for other in ["100000000000000000000000000000", "18446744073709551616", "sv9", "True", "1.5", "-3"]:
+                for first in (True, False):
+                    row = "%s, %s" % ((cx, other) if first else (other, cx))
+                    t = HDR + DECLS + 'complex zc9 = 0.5+1j\nstr sv9 = "s"\n%s array AC9 =\n    %s\nVac | 0\n' % (ty, row)
+
+                    def pred(impl, t=t):
+                        try:
+                            p = impl.loads(t)
+                        except Exception:  # noqa: BLE001
+                            return None
+                        return "an %s with a complex element was turned into a program: %r" % (t.split("\n")[-4], p.variables.get("AC9"))
+                    yield {"tag": "complex-in-real-array", "pred": pred, "key": t, "input": {"check": "must-refuse", "text": t}}
     # a name that WAS a loop variable is undefined again after its loop: used afterwards in every slot
     for slot, tmpl in SLOTS.items():
         for lv in ["m", "idx"]:
@@ -172,4 +188,13 @@ def run(tier, seed):
 
 
 def replay(rep):
+    if rep["input"].get("check") == "must-refuse":
+        import impl
+        try:
+            impl.loads(rep["input"]["text"])
+            print("loaded as a program")
+            return 1
+        except Exception as e:  # noqa: BLE001
+            print("refused:", type(e).__name__)
+            return 0
     return loadcmp.replay_load(PROP, rep)
